@@ -8,7 +8,8 @@ cell.go sharedStringsLoader, rows.go getFromStringItem / Rows, file.go Close /
 writeToZip) defined over the regenerated facts `Facts.C12`; `facts_ok` pins
 the facts the proofs were written for.
 -/
-import XlModel.Lemmas.Store11
+import XlModel.Lemmas.Store12
+import XlModel.Lemmas.ZipList
 import XlModel.Lemmas.Sst
 
 namespace XlModel.Props.C12
@@ -27,7 +28,8 @@ theorem facts_ok :
     Facts.C12.openErrCleanup = true ∧ Facts.C12.dupReplaces = true ∧
     Facts.C12.closeRemovesTemp = true ∧ Facts.C12.deleteSheetDeletesPkg = true ∧
     Facts.C12.deleteSheetDropsTemp = true ∧ Facts.C12.deleteSheetRemovesFile = true ∧
-    Facts.C12.zipTempBranchSkipsStreams = true ∧ Facts.C12.readBytesPromotes = true ∧
+    Facts.C12.zipTempBranchSkipsStreams = true ∧ Facts.C12.zipPkgBranchSkipsStreams = true ∧
+    Facts.C12.readBytesPromotes = true ∧
     Facts.C12.zipTempBranchViaReadBytes = true ∧ Facts.C12.saveFileListPrependsHeader = true ∧
     Facts.C12.sstLoaderPromotesThenRemoves = true ∧
     Facts.C12.loaderBeforeReader.all (·.2) = true ∧
@@ -391,19 +393,62 @@ theorem saved_zip_lookup (l : Limits) (es : List Entry) (st : St) (h : openReade
   (save_zip_struct (run_inv ops (open_establishes_inv l es st h))
     (run_pk ops (open_establishes_inv l es st h) (open_pk l es st h)) w s o).2 n
 
-/-- `saved_zip_refines_map` (partial — explicit extra hypothesis `NoStaleEmpty`: no part is held as an
-*empty* Pkg entry while a temp file with other bytes exists for it; true in every reachable state but
-not proved): the package written by a save after any admissible history lists, for every part name,
-exactly the bytes of the limit-free plain map after that save; hence the same entries under every
-limit pair -/
-theorem saved_zip_refines_map_partial (l : Limits) (es : List Entry) (st : St) (h : openReader l es = .ok st)
+/-- no part is an empty Pkg entry next to a temp file with other bytes — after every successful open -/
+theorem open_nse (l : Limits) (es : List Entry) (st : St) (h : openReader l es = .ok st) : NSE st := by
+  unfold openReader at h
+  cases hc : checkOptions l with
+  | none => simp [hc] at h
+  | some l' =>
+    simp only [hc] at h
+    have ns := readZip_nse l' es {} 0 0 Inv0.init (fun n _ b c hb _ _ => by simp [AMap.load] at hb)
+    cases hr : readZip l' {} 0 0 es with
+    | ok s w => rw [hr] at h ns; injection h with h; subst h; exact ns
+    | sizeErr s => rw [hr] at h; simp at h
+    | readErr s => rw [hr] at h; simp at h
+    | panic s => rw [hr] at h; cases h
+
+/-- `saved_zip_refines_map` (full; was `…_partial` with the hypothesis `NoStaleEmpty`, which is now the
+invariant `NSE`, established by open and preserved by every admissible step): the package written by a
+save after any admissible history lists, for every part name, exactly the bytes of the limit-free
+plain map after that save — the same entries under every limit pair, no orphan, nothing missing -/
+theorem saved_zip_refines_map (l : Limits) (es : List Entry) (st : St) (h : openReader l es = .ok st)
     (ops : List Op) (adm : AdmAll { m := Spec.parts es [] } ops) (w : Map Blob) (s : Blob) (o : Map Blob)
-    (a : Adm (Spec.run { m := Spec.parts es [] } ops).1 (.save w s o))
-    (ne : NoStaleEmpty (saveMid (run st ops).1 w s o)) (n : String) (hn : n ≠ sstKey) :
+    (a : Adm (Spec.run { m := Spec.parts es [] } ops).1 (.save w s o)) (n : String) (hn : n ≠ sstKey) :
     AMap.load (save (run st ops).1 w s o).2 n =
       AMap.load (Spec.step (Spec.run { m := Spec.parts es [] } ops).1 (.save w s o)).1.m n :=
-  save_zip_refines_partial (store_refines_map l es st h ops adm).1
-    (run_pk ops (open_establishes_inv l es st h) (open_pk l es st h)) w s o a ne n hn
+  save_zip_refines (store_refines_map l es st h ops adm).1
+    (run_pk ops (open_establishes_inv l es st h) (open_pk l es st h))
+    (run_nse ops (open_establishes_inv l es st h) (open_nse l es st h) adm) w s o a n hn
+
+/-- two opens under different limits, the same admissible history, the same save: the two saved
+packages have the same entry for every part name -/
+theorem saved_zip_independent_of_limits (l1 l2 : Limits) (es : List Entry) (s1 s2 : St)
+    (h1 : openReader l1 es = .ok s1) (h2 : openReader l2 es = .ok s2)
+    (ops : List Op) (adm : AdmAll { m := Spec.parts es [] } ops) (w : Map Blob) (s : Blob) (o : Map Blob)
+    (a : Adm (Spec.run { m := Spec.parts es [] } ops).1 (.save w s o)) (n : String) (hn : n ≠ sstKey) :
+    AMap.load (save (run s1 ops).1 w s o).2 n = AMap.load (save (run s2 ops).1 w s o).2 n := by
+  rw [saved_zip_refines_map l1 es s1 h1 ops adm w s o a n hn, saved_zip_refines_map l2 es s2 h2 ops adm w s o a n hn]
+
+/-! ## all three loops of writeToZip (stream parts, Pkg, tempFiles) -/
+
+/-- `zip_three_loops_no_duplicates`: whatever File.streams, File.Pkg and File.tempFiles hold (each a
+map: unique keys), writeToZip writes no entry name twice — the Pkg loop skips stream parts and the
+temp loop skips Pkg parts **and** stream parts (regenerated facts `zipPkgBranchSkipsStreams`,
+`zipTempBranchSkipsStreams`) -/
+theorem zip_three_loops_no_duplicates (streams pkg temp : List String)
+    (hs : streams.Nodup) (hp : pkg.Nodup) (ht : temp.Nodup) : (ZipList.zipNames streams pkg temp).Nodup :=
+  ZipList.zipNames_nodup hs hp ht
+
+/-- no orphan, nothing missing: the names written are exactly those held in one of the three collections -/
+theorem zip_three_loops_names (streams pkg temp : List String) (n : String) :
+    n ∈ ZipList.zipNames streams pkg temp ↔ n ∈ streams ∨ n ∈ pkg ∨ n ∈ temp :=
+  ZipList.mem_zipNames streams pkg temp n
+
+/-- the temp loop without the stream test (the code before the second fix window) wrote a
+stream-rewritten spilled worksheet twice -/
+theorem zip_old_temp_loop_duplicates :
+    ¬ (ZipList.zipNamesOld ["xl/worksheets/sheet1.xml"] ["xl/workbook.xml"] ["xl/worksheets/sheet1.xml"]).Nodup :=
+  ZipList.old_temp_loop_duplicates
 
 /-! ## DeleteSheet after a spilled open -/
 
